@@ -163,7 +163,13 @@ def _wiring(prog, rep, fi, call):
             continue
         guards, v = kws[field]
         ok = src(v) == f"{lp}.{field}"
-        rep.ob("R08.2", f"{fi.name}:linprog({field}=)", ok, f"{field} = {lp}.{field}" if ok else f"{field} is fed from {src(v)} instead of {lp}.{field}", loc=f"{fi.module.rel}:{getattr(v, 'lineno', call.lineno)}", detail="fed-from-same-field")
+        if not ok and field == "bounds" and isinstance(v, ast.Name):
+            # bounds are mutable user state and may be read per solve: extract_bounds(<problem.variables>)
+            for val in assigns.get(v.id, []):
+                if isinstance(val, ast.Call) and src(val.func).endswith("extract_bounds") and val.args and isinstance(val.args[0], ast.Name):
+                    if any(isinstance(x, ast.AST) and src(x).endswith(".variables") for x in assigns.get(val.args[0].id, [])):
+                        ok = True
+        rep.ob("R08.2", f"{fi.name}:linprog({field}=)", ok, (f"{field} = {lp}.{field}" if src(v) == f"{lp}.{field}" else f"{field} = extract_bounds(problem.variables), read on every solve in column order") if ok else f"{field} is fed from {src(v)} instead of {lp}.{field}", loc=f"{fi.module.rel}:{getattr(v, 'lineno', call.lineno)}", detail="fed-from-same-field")
     for a, b in (("A_ub", "b_ub"), ("A_eq", "b_eq")):
         if a in kws and b in kws:
             ga = sorted(src(t) for t, p in kws[a][0])
